@@ -222,6 +222,38 @@ def run(ctx, prop):
                     if rc == 0:
                         oracle_fail.append({"case": {"id": case["id"], "note": "interface with 0x4001 methods"},
                                             "failures": [{"where": "cli", "error": "accepted: an op-code above 0x3FFF was handed out"}]})
+        # the same bound over a hierarchy: the limit is on the flattened count, wherever the
+        # levels split it (two and three levels, one and two files)
+        def chain_case(parts, two_files):
+            nodes, base, k = [], None, 0
+            for li, cnt in enumerate(parts):
+                ms = [{"k": "method", "name": f"m{k + i}", "optional": False, "doc": None, "params": []} for i in range(cnt)]
+                k += cnt
+                nodes.append({"k": "interface", "name": f"IL{li}", "base": base, "members": ms})
+                base = f"IL{li}"
+            if two_files:
+                return {"id": "chain-" + "-".join(map(str, parts)) + "-2f", "main": "main.idl", "incdirs": [],
+                        "files": [{"path": "main.idl", "nodes": [{"k": "include", "path": "base.idl"}] + nodes[1:]},
+                                  {"path": "base.idl", "nodes": nodes[:1]}]}
+            return {"id": "chain-" + "-".join(map(str, parts)), "main": "main.idl", "incdirs": [], "files": [{"path": "main.idl", "nodes": nodes}]}
+        for parts, two_files, accept in (((16384, 1), True, False), ((16383, 1), False, True), ((8192, 8192, 1), False, False),
+                                         ((8192, 8191, 1), True, True), ((1, 16384), False, False)):
+            case = chain_case(parts, two_files)
+            with C.Scratch() as tmp:
+                root = os.path.join(tmp, "src")
+                idl.render_case(case, root)
+                rc, err = E.run_idlc(ctx, root, "main.idl", [], "c", os.path.join(tmp, "o.h"), timeout=300)
+                ctx.bump("evaluations")
+                if accept and rc != 0:
+                    oracle_fail.append({"case": {"id": case["id"]}, "failures": [{"where": "cli", "error": f"a hierarchy with exactly 0x4000 flattened methods was rejected rc={rc}", "stderr": err[-200:]}]})
+                if not accept and rc == 0:
+                    oracle_fail.append({"case": {"id": case["id"]}, "failures": [{"where": "cli", "error": "accepted: a hierarchy with 0x4001 flattened methods got an op-code above 0x3FFF"}]})
+                if accept and rc == 0:
+                    ops = X.c_ops(open(os.path.join(tmp, "o.h")).read())
+                    top = f"IL{len(parts) - 1}"
+                    vals = sorted(v for (i_, m_), v in ops.items() if i_ == top) if ops and isinstance(next(iter(ops)), tuple) else sorted(ops.values())
+                    if max(vals) != 16383:
+                        oracle_fail.append({"case": {"id": case["id"]}, "failures": [{"where": "c-stub", "error": "largest id is not 0x3FFF", "max": max(vals)}]})
     return finish(ctx, prop, gate, oracle_fail, disagree, samples, len(distinct), hist)
 
 
